@@ -32,7 +32,7 @@ CHECKS = {
             "typestate exploration of all TestResult callback sequences (both unittest protocol variants, all option "
             "combinations) shows no callback fails on its own state; every formatter method used exists with a compatible "
             "signature on all formatter classes; summary, continuation of the layer loop and final tear-down on all paths. "
-            "The run-wide totals line is emitted unless exactly one layer was turned to (guards evaluated over the layer count), and the layer_setup hooks dominate run_layer. Not decided: errors inside printing itself or outside the raise-source catalogue. Contradiction rules on the runner's own reporting code: a value that may be None (mixed-return function, local None on one branch) reaches no use that needs a real value without a test excluding None; exception objects raised by user code are never hashed or compared by value.",
+            "The run-wide totals line is emitted unless exactly one layer was turned to (guards evaluated over the layer count), and the layer_setup hooks dominate run_layer. Not decided: errors inside printing itself or outside the raise-source catalogue. Contradiction rules on the runner's own reporting code: a value that may be None (mixed-return function, local None on one branch) reaches no use that needs a real value without a test excluding None; exception objects raised by user code are never hashed or compared by value. Where a function uses a parameter as a format string every call site passes a constant (no user text is interpreted as a format).",
             "exception-escape analysis + typestate exploration (abstract interpretation of the callbacks) + interface cross-check", "4/C04"),
     'C05': ("Per-test hooks: on every result-event sequence of both unittest protocol variants testSetUp/testTearDown are "
             "balanced, ordered (bases first / exact reverse) and complete; the layer list is order_by_bases(gathered "
@@ -111,7 +111,7 @@ CHECKS = {
             "afterwards, files yielded from sorted(); de-duplication by path; a module rejected by --module can never "
             "reach import_name (CFG with the predicate fixed to false), who-may-import table; in-place pruning by "
             "identifier/IGNORE_FOLDERS/ignore_dir before the walk resumes; --package restricts the walk; prefixes "
-            "sorted longest first. Prefixes are matched at a directory boundary (stored with the separator <-> startswith / cut length of the consumers); 32-case decision table of which files of a directory are recorded as test modules. Not decided: symlinks, what the regexes match on concrete names. options.ignore_dir contains the built-in version-control names whether or not --ignore_dir is given (abstract evaluation of the argparse declaration and of get_options); with --package every directory of every named package is searched (the loops are left only when exhausted). Every symlinked sub-directory is walked (only the islink test guards the recursion); the positional module filter restricts the modules imported.",
+            "sorted longest first. Prefixes are matched at a directory boundary (stored with the separator <-> startswith / cut length of the consumers); 32-case decision table of which files of a directory are recorded as test modules. Not decided: symlinks, what the regexes match on concrete names. options.ignore_dir contains the built-in version-control names whether or not --ignore_dir is given (abstract evaluation of the argparse declaration and of get_options); with --package every directory of every named package is searched (the loops are left only when exhausted). Every symlinked sub-directory is walked (only the islink test guards the recursion); the positional module filter restricts the modules imported. Every first-match loop over the search paths iterates options.prefix (longest first).",
             "order-provenance + CFG reachability under a fixed predicate value + who-may-call", "4/C14"),
     'C15': ("Stale bytecode: the only destructive file-system call reachable from discovery is the os.unlink of "
             "remove_stale_bytecode (all destructive sites of the package tabulated); nothing is walked or deleted under "
@@ -123,13 +123,13 @@ CHECKS = {
             "(computed from the regex syntax tree) covers all code points outside XML 1.0 Char; ASCII-safe serialisation; "
             "tests == len(records), failure/error counters and children created under the same field and attached to the "
             "serialised tree, one record per "
-            "outcome; wrapper overrides record once and forward. constant indexes into split results are in range for every message (R6); the report file name is an injective function of the suite name (R7). Not decided: subtest class attribution. Every outcome can be recorded: the functions that name a test for the report do not fail on an absent value (nullable-result rule); in a layer subprocess nothing in the report phase can fail before the reports are written (nothing prints after the child closed stdout). writeXMLReports is called once, from Runner.run after the test phase, and the recorded suites are never forgotten.",
+            "outcome; wrapper overrides record once and forward. constant indexes into split results are in range for every message (R6); the report file name is an injective function of the suite name (R7). Not decided: subtest class attribution. Every outcome can be recorded: the functions that name a test for the report do not fail on an absent value (nullable-result rule); in a layer subprocess nothing in the report phase can fail before the reports are written (nothing prints after the child closed stdout). writeXMLReports is called once, from Runner.run after the test phase, and the recorded suites are never forgotten. The --xml folder is made absolute in Runner.configure before any test runs.",
             "taint-to-sink rule with a statically computed character class + def-use", "4/C17"),
     'C18': ("Global state: teardown loops on every exit after the test phase (exception edges); for each catalogued "
             "mutator in a feature set-up hook the previous value is saved from the matching getter first and restored "
             "from that saved value in a teardown hook Runner.run calls; warnings filter changes only inside "
             "catch_warnings; std streams via the typestate exploration and the who-may-assign table; stray mutators "
-            "paired inside their function. a hook attribute the package replaces is put back before the restoring call through it (R2); std streams are the originals whenever a per-test layer hook is called, i.e. may raise and end the run (R7). Not decided: C-level profiler state, state changed by tests.",
+            "paired inside their function. a hook attribute the package replaces is put back before the restoring call through it (R2); std streams are the originals whenever a per-test layer hook is called, i.e. may raise and end the run (R7). Not decided: C-level profiler state, state changed by tests. warnings.warn counts as a fallible teardown step.",
             "save/mutate/restore pairing over resolved library calls + CFG must-pass-through", "4/C18"),
     'C19': ("Thread report: per-test snapshot freshness and same enumerator on both sides on every protocol word "
             "(typestate); the guard of the report is exactly alive(+), in-snapshot(-), any re.match ignore(-) and "
@@ -144,7 +144,7 @@ CHECKS = {
             "passed on every return to a parent (unless root) and for every stacked neighbour, the component is popped "
             "down to exactly the root (pop loop or index scan + slice removal); the return visit is selected by identity with a fresh sentinel scheduled below the neighbours; every set kept in the neighbour map is an object created by the graph itself "
             "(freshness over reaching definitions, no alias of a caller's set). NOT decided and not claimed: that these conditions are sufficient, i.e. that the "
-            "components are exactly the SCCs for every graph (algorithm correctness over data). The graph only grows: an entry of the neighbour map is assigned only where the key is known to be absent, everything else is a union; no removal, no bulk overwrite. The node set and the neighbour map are bound in __init__ only (aliases and bound methods taken from them stay valid).",
+            "components are exactly the SCCs for every graph (algorithm correctness over data). The graph only grows: an entry of the neighbour map is assigned only where the key is known to be absent, everything else is a union; no removal, no bulk overwrite. The node set and the neighbour map are bound in __init__ only (aliases and bound methods taken from them stay valid). The return marker of the work list is a fresh object(), never a constant that could also be a node.",
             "forward must-alias data-flow analysis over the CFG + contradiction rule on map accesses + structural invariants", "4/C20"),
 }
 
